@@ -71,6 +71,10 @@ def gen_case(rng, n):
         else:
             # `limit` is not used: which of several unlinked uploads go first is unspecified (no ORDER BY in FileDeleteUnused)
             out.append("gc " + ("due" if rng.chance(2, 3) else "fresh"))
+    # once in a while the collector itself runs (a choice of its own generator: the rest of the history is as it was)
+    r2 = rng.fork("gcloop")
+    if r2.chance(1, 6):
+        out.insert(2 + r2.below(max(1, len(out) - 1)), "gc loop")
     return out
 
 
@@ -185,7 +189,7 @@ def monitor(ops, outs):
             for f in gone:
                 if pre[f]["links"]:
                     fails.append(f"garbage collection removed {f} which is still linked ({','.join(pre[f]['links'])})")
-            if w[1] == "fresh" and gone:
+            if w[1] in ("fresh", "loop") and gone:
                 fails.append(f"garbage collection removed {sorted(gone)} before the grace period had passed")
             if w[1] == "due" and "limit" not in kv:
                 left = [f for f, r in p["files"].items() if not r["links"]]
